@@ -21,3 +21,41 @@ def sdd_twice(name, p):
     once = dict(r1[1])
     r2 = set_default_doc((name, r1[1]), emit_default_doc=True)
     return once, r2[1]
+
+
+def argparse_option_roundtrip(param):
+    """C04, one option: render the entry as an add_argument statement, read that statement back"""
+    from doctrans.ast_utils import param2argparse_param
+    from doctrans.emitter_utils import parse_out_param
+
+    stmt = param2argparse_param(param, word_wrap=False, emit_default_doc=False)
+    return parse_out_param(stmt, require_default=False, emit_default_doc=False)
+
+
+def class_attribute_roundtrip(param):
+    """C02, one attribute: render the entry as an annotated assignment inside a class, read the class back"""
+    from ast import ClassDef
+
+    from doctrans.ast_utils import param2ast
+    from doctrans.parse import class_ as parse_class
+
+    node = ClassDef(name="C", bases=[], keywords=[], body=[param2ast(param)], decorator_list=[], expr=None, identifier_name=None)
+    return parse_class(node)
+
+
+def function_signature_roundtrip(ir, kwonly):
+    """C03, the signature half: emit a def from the description, read the def's signature back (the docstring half goes through the docstring codec)"""
+    from doctrans.emit import function as emit_function
+    from doctrans.parse import function as parse_function
+
+    fd = emit_function(ir, function_name=None, function_type="static", emit_default_doc=False, inline_types=True, emit_as_kwonlyargs=kwonly)
+    return parse_function(fd)
+
+
+def function_body_roundtrip(function_def):
+    """C16: parse a def, emit it again: the body statements are carried"""
+    from doctrans.emit import function as emit_function
+    from doctrans.parse import function as parse_function
+
+    ir = parse_function(function_def)
+    return emit_function(ir, function_name=None, function_type=None, emit_default_doc=False, inline_types=True, emit_as_kwonlyargs=False)
